@@ -54,10 +54,33 @@ def run(ctx):
                       'cycle statistics')
 
 
+def _returned_names(e):
+    """names of the local arrays an exit returns (read from the loop / post symbols of the returned value): the
+    output array is identified by being returned, not by what it is called"""
+    vals = e.value[1] if e.value is not None and e.value[0] == 'tuple' else (e.value,)
+    out = set()
+    for t in vals:
+        while t is not None and t[0] in ('setitem', 'meth') and len(t) > 2:
+            t = t[1] if t[0] == 'setitem' else t[2]
+        if t is not None and t[0] == 's' and '@' in t[1]:
+            out.add(t[1].split('@')[0])
+    return out
+
+
 def _for_stores(exits, outname=None):
     out = []
     for e in exits:
         if e.kind != 'return':
+            continue
+        if outname == '<returned>':
+            names = _returned_names(e)
+            for ls in e.state.loops:
+                if ls.kind != 'for':
+                    continue
+                for kind, b in ls.body_states:
+                    for eff in b.effects:
+                        if eff[0] == 'setitem' and eff[5] in names:
+                            out.append((e, ls, b, eff))
             continue
         for ls in e.state.loops:
             if ls.kind != 'for':
@@ -225,9 +248,10 @@ def rule_project(ctx, rid):
     c2 = 'projection starts from an all-NaN vector of sample length'
     init = None
     for e in exits:
+        names = _returned_names(e) if e.kind == 'return' else set()
         for ls in e.state.loops:
             for name, t in ls.entry_env.items():
-                if name == 'out':
+                if name in names:
                     init = t
     okinit = False
     if init is not None:
@@ -246,7 +270,7 @@ def rule_phase_align(ctx, rid):
     ev = Evaluator(P)
     exits = ev.run(fi, context={'mode': 'cycle', 'ii': None})
     ctx.paths += len(exits)
-    stores = _for_stores(exits, 'avg')
+    stores = _for_stores(exits, '<returned>')
     c4 = 'interpolant has the requested kind and extrapolates (no NaN / error at the first and last bin centre)'
     bad4 = None
     c1 = 'phase and value of a cycle are taken at the same sample index set'
